@@ -91,6 +91,86 @@ theorem parseIntLit_intDec (i : Int) : parseIntLit (intDec i) = some i := by
     omega
 
 
+theorem b64v_b64c : ∀ i : Fin 64, b64v (b64c i.val) = some i.val := by decide
+
+theorem b64v_c {n : Nat} (h : n < 64) : b64v (b64c n) = some n := b64v_b64c ⟨n, h⟩
+
+theorem b64c_ne61 : ∀ i : Fin 64, b64c i.val ≠ 61 := by decide
+
+theorem b64dec_b64 : ∀ (s : Bytes), b64dec (b64 s) = some s := by
+  intro s
+  induction s using b64.induct with
+  | case1 a b c r ih =>
+    have ha := a.toNat_lt; have hb := b.toNat_lt; have hc := c.toNat_lt
+    simp only [b64]
+    generalize hn : a.toNat * 65536 + b.toNat * 256 + c.toNat = n
+    have h0 : n / 262144 < 64 := by omega
+    have h1 : n / 4096 % 64 < 64 := by omega
+    have h2 : n / 64 % 64 < 64 := by omega
+    have h3 : n % 64 < 64 := by omega
+    have n2 : b64c (n / 64 % 64) ≠ 61 := b64c_ne61 ⟨_, h2⟩
+    have n3 : b64c (n % 64) ≠ 61 := b64c_ne61 ⟨_, h3⟩
+    unfold b64dec
+    split
+    · rename_i heq; cases heq
+    · rename_i heq; injection heq with _ heq; injection heq with _ heq; injection heq with e _; exact absurd e n2
+    · rename_i heq; injection heq with _ heq; injection heq with _ heq; injection heq with _ heq; injection heq with e _; exact absurd e n3
+    · rename_i a' b' c' d' r' _ _ heq
+      injection heq with e0 heq; injection heq with e1 heq; injection heq with e2 heq; injection heq with e3 e4
+      subst e0; subst e1; subst e2; subst e3; subst e4
+      simp only [b64v_c h0, b64v_c h1, b64v_c h2, b64v_c h3, ih]
+      have e : ((n / 262144 * 64 + n / 4096 % 64) * 64 + n / 64 % 64) * 64 + n % 64 = n := by omega
+      rw [e]
+      have ea : n / 65536 = a.toNat := by omega
+      have eb : n / 256 % 256 = b.toNat := by omega
+      have ec : n % 256 = c.toNat := by omega
+      rw [ea, eb, ec]
+      simp
+    · rename_i hx; exact (hx _ _ _ _ _ rfl).elim
+  | case2 a b =>
+    have ha := a.toNat_lt; have hb := b.toNat_lt
+    simp only [b64]
+    generalize hn : a.toNat * 65536 + b.toNat * 256 = n
+    have h0 : n / 262144 < 64 := by omega
+    have h1 : n / 4096 % 64 < 64 := by omega
+    have h2 : n / 64 % 64 < 64 := by omega
+    have n2 : b64c (n / 64 % 64) ≠ 61 := b64c_ne61 ⟨_, h2⟩
+    unfold b64dec
+    split
+    · rename_i heq; cases heq
+    · rename_i heq; injection heq with _ heq; injection heq with _ heq; injection heq with e _; exact absurd e n2
+    · rename_i a' b' c' heq
+      injection heq with e0 heq; injection heq with e1 heq; injection heq with e2 _
+      subst e0; subst e1; subst e2
+      simp only [b64v_c h0, b64v_c h1, b64v_c h2]
+      have ea : ((n / 262144 * 64 + n / 4096 % 64) * 64 + n / 64 % 64) / 1024 = a.toNat := by omega
+      have eb : ((n / 262144 * 64 + n / 4096 % 64) * 64 + n / 64 % 64) / 4 % 256 = b.toNat := by omega
+      rw [ea, eb]
+      simp
+    · simp_all
+    · rename_i hx; exact (hx _ _ _ _ _ rfl).elim
+  | case3 a =>
+    have ha := a.toNat_lt
+    simp only [b64]
+    generalize hn : a.toNat * 65536 = n
+    have h0 : n / 262144 < 64 := by omega
+    have h1 : n / 4096 % 64 < 64 := by omega
+    unfold b64dec
+    split
+    · rename_i heq; cases heq
+    · rename_i a' b' heq
+      injection heq with e0 heq; injection heq with e1 _
+      subst e0; subst e1
+      simp only [b64v_c h0, b64v_c h1]
+      have ea : (n / 262144 * 64 + n / 4096 % 64) / 16 = a.toNat := by omega
+      rw [ea]
+      simp
+    all_goals first
+      | (simp_all; done)
+      | (simp_all; rename_i hx heq; exact absurd (heq.2.2.2.1.symm.trans heq.2.2.1) hx)
+  | case4 => simp [b64, b64dec]
+
+
 /-- the value does not encode as `null` (a nil anything, or a pointer chain ending in one) -/
 def nn : GoVal → Bool
   | .nil => false
@@ -120,6 +200,8 @@ def rtOK : GoType → GoVal → Bool
   | .int k, .int n => intInRange k n
   | .uint k, .uint n => natInRange k n
   | .str, .str s => validUtf8 s
+  | .bytes, .nil => true
+  | .bytes, .bytes _ => true
   | .f64, .f64 b => (fmtF64 b).isSome          -- finite (NaN and the infinities have no literal)
   | .f32, .f32 b => (fmtF32 b).isSome
   | .map .str _, .nil => true
@@ -142,10 +224,12 @@ def rtOKM : GoType → List (GoVal × GoVal) → Bool
   | _, [] => true
   | t, (.str k, v) :: r => validUtf8 k && rtOK t v && rtOKM t r
   | _, _ => false
-/-- every declared field is kept and plain (no `,string`, `omitempty`, `omitzero`) and its value is carried -/
+/-- every declared field is kept, not `,string`, not left out (`omitempty` / `omitzero` only on values that are
+    not empty / not zero) and its value is carried -/
 def rtOKF : List (Option Field) → List GoVal → Bool
   | [], [] => true
-  | some f :: fs, v :: vs => !f.quoted && !f.omitEmpty && !f.omitZero && rtOK f.typ v && rtOKF fs vs
+  | some f :: fs, v :: vs =>
+    !f.quoted && !(f.omitEmpty && isEmptyV f.typ v) && !(f.omitZero && isZeroV v) && rtOK f.typ v && rtOKF fs vs
   | _, _ => false
 end
 
@@ -513,6 +597,21 @@ theorem roundtrip_all (o : EncOpts) :
       · exact unq_quoteBody_raw _ s
       · rw [unq_quoteBody_fixed, coerce_valid hrt]
     simp [strVal, decV, hu]
+  case case8 =>
+    intro addr j _ h
+    simp only [encV] at h; injection h with h; subst h
+    unfold nilSlice
+    split
+    · rename_i hn
+      exact ⟨.bytes [], by simp [decV], by simp [eqv, hn], fun hh => by simp [nn] at hh⟩
+    · exact ⟨.nil, by simp [decV], by simp [eqv], fun hh => by simp [nn] at hh⟩
+  case case9 =>
+    intro addr b j _ h
+    simp only [encV] at h; injection h with h; subst h
+    have hu : unq (b64 b) = some (b64 b) := by
+      have := unqS_plain_append (b64_plain b) []
+      simpa [unq, unqS, flushHi] using this
+    exact ⟨.bytes b, by simp [decV, hu, b64dec_b64], by simp [eqv], fun _ hh => by cases hh⟩
   case case14 =>
     intro addr t j _ h
     simp only [encV] at h; injection h with h; subst h
